@@ -540,13 +540,21 @@ func validSchemaWire(r *Run, kind string) []byte {
 		if rng.Intn(3) == 0 {
 			m["value"] = base()
 		}
-		switch rng.Intn(4) {
+		switch rng.Intn(8) {
 		case 0:
 			m["min"], m["max"] = 0, 1
 		case 1:
 			m["min"], m["max"] = 0, "unlimited"
 		case 2:
 			m["min"], m["max"] = 1, 5
+		case 3:
+			m["min"] = 0 // max defaults to 1: an optional value
+		case 4:
+			m["min"] = 1
+		case 5:
+			m["max"] = []interface{}{3, "unlimited", 1}[rng.Intn(3)] // min defaults to 1
+		case 6:
+			m["min"], m["max"] = 1, 1
 		}
 		return m
 	}
